@@ -26,7 +26,12 @@ Proof.
   destruct (adjust_all o (p_heap p) (p_species p)) as [[h1 sps1]| | | | |] eqn:E1; try discriminate H.
   destruct (purge_zero_offspring _) as [p2| | | | |] eqn:E2; try discriminate H.
   destruct (count_all _ _ _ _) as [[sps T]| | | | |] eqn:E3; try discriminate H.
-  apply Z.leb_gt in H. specialize (Q _ _ _ _ _ eq_refl E2 E3). lia.
+  destruct (Q _ _ _ _ _ eq_refl E2 E3) as [Q1 Q2].
+  apply andb_false_iff in H. destruct H as [H|H].
+  - apply Z.leb_gt in H. lia.
+  - assert (F : forallb (fun s => Z.leb 0 (sp_exp s)) sps = true).
+    { apply forallb_forall. intros s Hs. apply Z.leb_le. now apply Q2. }
+    rewrite F in H. discriminate H.
 Qed.
 
 (* ------------------------------------------------------------------------------------------ *)
